@@ -23,7 +23,7 @@ func init() {
 		Assumptions: []string{"Metastore.LoadLatest returns the newest record (C13)", "time.Now is the process clock"},
 		Tech:        "static analysis: guarded-by-condition (dominating branch facts) on SSA, boolean-disjunct structure, value provenance",
 		NeedU1:      true,
-		Rules:       []func(*Ctx){ruleC04LatestRevalidated, ruleC04LoaderRejectsInvalid, ruleC04NewKeysStampedNow, ruleC05MergeIdentity},
+		Rules:       []func(*Ctx){ruleC04LatestRevalidated, ruleC04LoaderRejectsInvalid, ruleC04NewKeysStampedNow, ruleC05MergeIdentity, ruleC04FreshnessRenewal, ruleC04LatestMapMonotonic},
 	})
 	register(&propSpec{
 		ID:            "C05",
@@ -38,7 +38,7 @@ func init() {
 		Assumptions: []string{"the loader passed to the cache re-reads the metastore (checked by C20.external-only-via-cache / C01 provenance rules)"},
 		Tech:        "static analysis: guarded-by-condition and must-pass-through on SSA over key_cache.go/envelope.go",
 		NeedU1:      true,
-		Rules:       []func(*Ctx){ruleC05StaleMeansReload, ruleC05ReloadRefreshes, ruleC05MergeIdentity, ruleC04LatestRevalidated, ruleC01NoValidityGateOnRead, ruleC08RefcountProtocol},
+		Rules:       []func(*Ctx){ruleC05StaleMeansReload, ruleC05ReloadRefreshes, ruleC05MergeIdentity, ruleC04LatestRevalidated, ruleC01NoValidityGateOnRead, ruleC08RefcountProtocol, ruleC04FreshnessRenewal},
 	})
 }
 
@@ -693,4 +693,105 @@ func ruleC01NoValidityGateOnRead(c *Ctx) {
 	sort.Strings(revGates)
 	c.check(len(revGates) == 0, "DecryptDataRowRecord/revocation-rejects-read", u.pos(start.Pos()), "no branch on a Revoked flag leads only to error returns on the decrypt path",
 		"on the decrypt path a branch on a revoked flag leads only to error returns: records written under a since-revoked key can no longer be read: "+strings.Join(revGates, "; "))
+}
+
+// ruleC04FreshnessRenewal: the freshness stamp (loadedAt) that lets GetOrLoadLatest skip its loader — the only place
+// where the parent system key of a cached intermediate key is re-validated — must be renewed only by loads that went
+// through that validating (latest) loader. If an exact-version load (decrypt path, whose loader must NOT gate on
+// validity: C01) renews it too, a session that decrypts at least once per interval never re-validates the parent.
+func ruleC04FreshnessRenewal(c *Ctx) {
+	u := c.U1
+	c.rule("C04.freshness-renewed-only-with-parent-validation", "in keyCache.load the retained entry's loadedAt is reset only where the load is a latest-lookup (meta.IsLatest()), i.e. went through the loader that re-validates the parent key", 1)
+	f := u.Method(pkgApp, "keyCache", "load")
+	if f == nil {
+		c.unresolved("load", "(*keyCache).load")
+		return
+	}
+	c.FuncsAnalysed[shortName(f)] = true
+	n := 0
+	allInstrs(f, func(i ssa.Instruction) {
+		st, ok := i.(*ssa.Store)
+		if !ok {
+			return
+		}
+		if _, fld, isF := fieldAccess(st.Addr); !isF || fld != "loadedAt" {
+			return
+		}
+		// only the retain path (entry came from a cache lookup), not the creation of a new entry
+		if base, _, _ := fieldAccess(st.Addr); len(lookupOrigins(base)) == 0 && !fromNewEntry(base) {
+			return
+		}
+		if fromNewEntry(st.Addr) && len(lookupOrigins(st.Addr)) == 0 {
+			return
+		}
+		n++
+		latestOnly := guardedBy(i, true, func(v ssa.Value) bool {
+			cv, isC := strip(v).(*ssa.Call)
+			return isC && methodNameOf(&cv.Call) == "IsLatest"
+		})
+		c.check(latestOnly, shortName(f)+"/retained-entry-freshness", u.ipos(i), "loadedAt renewed only for latest-lookups",
+			"any load — including the exact-version loads of the decrypt path, whose loader does not (and must not) validate the parent key — renews the freshness of the cached entry that GetOrLoadLatest serves to encrypts: a session that decrypts at least once per revoke-check interval keeps using an intermediate key whose parent system key has expired or been revoked beyond the interval")
+	})
+	if n == 0 {
+		c.ok(shortName(f)+"/retained-entry-freshness", u.pos(f.Pos()), "load never renews the freshness of a retained entry")
+	}
+}
+
+// ruleC04LatestMapMonotonic: the cache's "latest key for this id" pointer may be moved by an exact-version load (decrypt
+// path) only forward: when nothing is mapped yet or the loaded key is strictly newer than the mapped one. Otherwise a
+// decrypt of an old record turns a superseded key into the key new records are written under.
+func ruleC04LatestMapMonotonic(c *Ctx) {
+	u := c.U1
+	c.rule("C04.latest-map-monotonic", "in keyCache.write every mapLatestKeyMeta call is made for a latest-lookup (meta.IsLatest()), or where no latest is mapped yet, or where the mapped latest's Created is strictly less than the entry's key Created()", 2)
+	f := u.Method(pkgApp, "keyCache", "write")
+	m := u.Method(pkgApp, "keyCache", "mapLatestKeyMeta")
+	gl := u.Method(pkgApp, "keyCache", "getLatestKeyMeta")
+	if f == nil || m == nil || gl == nil {
+		c.unresolved("write", "(*keyCache).write / mapLatestKeyMeta / getLatestKeyMeta")
+		return
+	}
+	n := 0
+	for _, g := range u.RepoFuncs {
+		if rootFunc(g).Signature.Recv() == nil || namedTypeName(rootFunc(g).Signature.Recv().Type()) != "keyCache" {
+			continue
+		}
+		allInstrs(g, func(i ssa.Instruction) {
+			if staticCallee(i) != m {
+				return
+			}
+			n++
+			c.CallSites++
+			c.FuncsAnalysed[shortName(g)] = true
+			ok := holdsOnAllEntries(i.Block(), func(facts []Fact) bool {
+				ok := false
+				for _, fct := range facts {
+					if cv, isC := strip(fct.V).(*ssa.Call); isC && methodNameOf(&cv.Call) == "IsLatest" && fct.True {
+						ok = true
+					}
+					if ex, isEx := strip(fct.V).(*ssa.Extract); isEx && ex.Index == 1 && !fct.True {
+						if call, isCall := ex.Tuple.(*ssa.Call); isCall && staticCallee(call) == gl {
+							ok = true // nothing mapped yet
+						}
+					}
+					if b, isB := fct.V.(*ssa.BinOp); isB {
+						isMapped := func(v ssa.Value) bool {
+							p := accessPath(v)
+							return strings.HasSuffix(p, ".Created") && strings.Contains(p, "X:") // field of getLatestKeyMeta's result
+						}
+						isNew := func(v ssa.Value) bool { return createdOf(v) != nil }
+						if (b.Op == token.LSS && isMapped(b.X) && isNew(b.Y) && fct.True) || (b.Op == token.GTR && isNew(b.X) && isMapped(b.Y) && fct.True) ||
+							(b.Op == token.GEQ && isMapped(b.X) && isNew(b.Y) && !fct.True) || (b.Op == token.LEQ && isNew(b.X) && isMapped(b.Y) && !fct.True) {
+							ok = true
+						}
+					}
+				}
+				return ok
+			})
+			c.check(ok, shortName(g)+"/mapLatestKeyMeta", u.ipos(i), "latest pointer moves only for latest-lookups, first mappings or strictly newer keys",
+				"the cache's latest-key pointer can be moved to a key that is not newer than the mapped one by an exact-version load: decrypting an old record makes a superseded (possibly parent-expired) key the one new records are written under")
+		})
+	}
+	if n == 0 {
+		c.bad("keyCache/mapLatestKeyMeta", "", "latest mapping is never updated")
+	}
 }
